@@ -145,7 +145,8 @@ Record inv (d : db) : Prop := mkInv {
   i_rows : forall t, In t (d_tabs d) -> rows_ok d t;
   i_msgs : forall g, In g (d_msgs d) -> mg_remote g = mg_id g;
   i_msgs_nodup : NoDup (map mg_id (d_msgs d));
-  i_m2m : forall m b, pair_mem m b (d_m2m d) = held d b m
+  i_m2m : forall m b, pair_mem m b (d_m2m d) = held d b m;
+  i_flags : forall p, In p (d_flags d) -> msg_exists (fst p) d = true
 }.
 
 Lemma find_tab_In : forall b ts t, find_tab b ts = Some t -> In t ts.
@@ -395,6 +396,7 @@ Proof.
     + apply N.eqb_eq in E. subst b'. unfold tab_del. cbn [t_rows]. rewrite existsb_msg_filter.
       unfold held. rewrite Ht. rewrite andb_true_r. reflexivity.
     + rewrite andb_false_r. cbn [negb]. rewrite andb_true_r. reflexivity.
+  - apply (i_flags d I).
 Qed.
 
 Lemma held_do_remove : forall b ids t d b' m, find_tab b (d_tabs d) = Some t ->
@@ -491,6 +493,7 @@ Proof.
     destruct (N.eqb b' b) eqn:E.
     + apply N.eqb_eq in E. subst b'. rewrite existsb_msg_append. unfold held. rewrite Ht. rewrite andb_true_r. reflexivity.
     + rewrite andb_false_r, orb_false_r. reflexivity.
+  - apply (i_flags d I).
 Qed.
 
 Lemma held_do_add : forall b ids t d b' m, find_tab b (d_tabs d) = Some t ->
@@ -541,3 +544,585 @@ Section Steps2.
       destruct E3 as [rows E3]. apply (ex_ok F HF (OAddMessages b (pairs il)) d _ _ E3).
   Qed.
 End Steps2.
+
+(* ------------------------------------------------------------------ flags as a predicate *)
+Definition has (l : list (N * flag)) (m : N) (f : flag) : bool :=
+  existsb (fun p => N.eqb (fst p) m && flag_eqb_ci (snd p) f) l.
+
+Lemma db_has_flag_has : forall d m f, db_has_flag d m f = has (d_flags d) m f. Proof. reflexivity. Qed.
+Lemma ref_has_flag_has : forall r m f, ref_has_flag r m f = has (rf_flags r) m f. Proof. reflexivity. Qed.
+
+Lemma has_app : forall l1 l2 m f, has (l1 ++ l2) m f = has l1 m f || has l2 m f.
+Proof. intros. unfold has. apply existsb_app. Qed.
+
+Lemma has_single : forall m0 f0 m f, has [(m0, f0)] m f = N.eqb m0 m && flag_eqb_ci f0 f.
+Proof. intros. unfold has. cbn. rewrite orb_false_r. reflexivity. Qed.
+
+Lemma fl_has_has : forall m f l f', fl_has m f l = true -> flag_eqb_ci f f' = true -> has l m f' = true.
+Proof.
+  intros m f l f' H Hc. unfold fl_has in H. apply existsb_exists in H. destruct H as [p [Hp E]].
+  apply andb_true_iff in E. destruct E as [E1 E2]. apply String.eqb_eq in E2.
+  unfold has. apply existsb_exists. exists p. split; [exact Hp|]. rewrite E1, E2, Hc. reflexivity.
+Qed.
+
+(* INSERT OR IGNORE of a list of (message, flag) pairs: the predicate grows by exactly those pairs *)
+Lemma foldM_ins_ignore_has : forall d X l,
+  (forall p, In p X -> msg_exists (fst p) d = true) ->
+  exists l', foldM (flag_ins_ignore1 d) X l = Some l' /\
+             (forall m f, has l' m f = has l m f || has X m f) /\
+             (forall q, In q l' -> In q l \/ In q X).
+Proof.
+  intros d X. induction X as [|p X IH]; intros l HX.
+  - exists l. split; [reflexivity|]. split; [|intros; left; assumption]. intros. cbn. rewrite orb_false_r. reflexivity.
+  - cbn [foldM]. unfold flag_ins_ignore1 at 1. rewrite (HX p (or_introl eq_refl)). cbn [negb].
+    assert (HX' : forall q, In q X -> msg_exists (fst q) d = true) by (intros q Hq; apply HX; right; exact Hq).
+    destruct (fl_has (fst p) (snd p) l) eqn:E.
+    + destruct (IH l HX') as [l' [H1 [H2 H3]]]. exists l'. split; [exact H1|]. split.
+      * intros m f. rewrite H2.
+        change (p :: X) with ([p] ++ X). rewrite has_app. destruct p as [m0 f0]. rewrite has_single. cbn [fst snd] in E.
+        destruct (N.eqb m0 m && flag_eqb_ci f0 f) eqn:E2; [|reflexivity].
+        apply andb_true_iff in E2. destruct E2 as [A B]. apply N.eqb_eq in A. subst m0.
+        rewrite (fl_has_has m f0 l f E B). reflexivity.
+      * intros q Hq. destruct (H3 q Hq) as [A|A]; [left; exact A | right; right; exact A].
+    + destruct (IH (l ++ [p]) HX') as [l' [H1 [H2 H3]]]. exists l'. split; [exact H1|]. split.
+      * intros m f. rewrite H2, has_app.
+        change (p :: X) with ([p] ++ X). rewrite has_app. rewrite orb_assoc. reflexivity.
+      * intros q Hq. destruct (H3 q Hq) as [A|A]; [|right; right; exact A].
+        apply in_app_or in A. destruct A as [A|[A|[]]]; [left; exact A | right; left; exact A].
+Qed.
+
+Lemma has_map_flag : forall ids fl m f, has (map (fun x => (x, fl)) ids) m f = nmem m ids && flag_eqb_ci fl f.
+Proof.
+  intros ids fl m f. unfold has, nmem. induction ids as [|i r IH]; [reflexivity|]. cbn [map existsb fst snd]. rewrite IH.
+  rewrite (N.eqb_sym i m). destruct (N.eqb m i), (flag_eqb_ci fl f), (existsb (N.eqb m) r); reflexivity.
+Qed.
+
+Lemma sp_add_flag_has : forall ids fl d, (forall m, In m ids -> msg_exists m d = true) ->
+  exists d', sp_add_flag ids fl d = Ok d' RUnit /\ d_tabs d' = d_tabs d /\ d_msgs d' = d_msgs d /\ d_m2m d' = d_m2m d /\
+             d_mboxes d' = d_mboxes d /\
+             (forall m f, db_has_flag d' m f = db_has_flag d m f || (nmem m ids && flag_eqb_ci fl f)) /\
+             (forall q, In q (d_flags d') -> In q (d_flags d) \/ In (fst q) ids).
+Proof.
+  intros ids fl d H. unfold sp_add_flag, flags_add.
+  assert (E : foldM (fun m l => flag_ins_ignore1 d (m, fl) l) ids (d_flags d)
+              = foldM (flag_ins_ignore1 d) (map (fun m => (m, fl)) ids) (d_flags d)).
+  { rewrite foldM_map. apply foldM_ext. reflexivity. }
+  rewrite E. clear E.
+  destruct (foldM_ins_ignore_has d (map (fun m => (m, fl)) ids) (d_flags d)) as [l' [H1 [H2 H3]]].
+  - intros p Hp. apply in_map_iff in Hp. destruct Hp as [m [E Hm]]. subst p. apply H. exact Hm.
+  - rewrite H1. exists (set_flags d l'). cbn [lift]. repeat split; try reflexivity.
+    + intros m f. rewrite !db_has_flag_has. cbn [d_flags set_flags]. rewrite H2, has_map_flag. reflexivity.
+    + cbn [d_flags set_flags]. intros q Hq. destruct (H3 q Hq) as [A|A]; [left; exact A|]. right.
+      apply in_map_iff in A. destruct A as [m [E Hm]]. subst q. exact Hm.
+Qed.
+
+Lemma existsb_and_const : forall {A} (q p : A -> bool) (c : bool) l, (forall x, q x = true -> p x = c) ->
+  existsb (fun x => q x && p x) l = existsb q l && c.
+Proof.
+  intros A q p c l H. induction l as [|x r IH]; [reflexivity|]. cbn [existsb]. rewrite IH.
+  destruct (q x) eqn:E; [rewrite (H x E)|]; cbn [andb orb]; [destruct c, (existsb q r); reflexivity | reflexivity].
+Qed.
+
+Lemma has_filter_remove : forall ids fl l m f,
+  has (filter (fun p => negb (nmem (fst p) ids && flag_eqb_ci (snd p) fl)) l) m f
+  = has l m f && negb (nmem m ids && flag_eqb_ci f fl).
+Proof.
+  intros ids fl l m f. unfold has. rewrite existsb_filter_and. apply existsb_and_const.
+  intros p Hp. apply andb_true_iff in Hp. destruct Hp as [A B]. apply N.eqb_eq in A. rewrite A.
+  rewrite (ci_trans _ _ fl (eq_trans (ci_sym f (snd p)) B)). reflexivity.
+Qed.
+
+Lemma sp_remove_flag_has : forall ids fl d,
+  exists d', sp_remove_flag true ids fl d = Ok d' RUnit /\ d_tabs d' = d_tabs d /\ d_msgs d' = d_msgs d /\ d_m2m d' = d_m2m d /\
+             d_mboxes d' = d_mboxes d /\
+             (forall m f, db_has_flag d' m f = db_has_flag d m f && negb (nmem m ids && flag_eqb_ci f fl)) /\
+             (forall q, In q (d_flags d') -> In q (d_flags d)).
+Proof.
+  intros ids fl d. exists (flags_remove true fl ids d). repeat split; try reflexivity.
+  - intros m f. rewrite !db_has_flag_has. unfold flags_remove. cbn [d_flags set_flags]. apply has_filter_remove.
+  - unfold flags_remove. cbn [d_flags set_flags]. intros q Hq. apply filter_In in Hq. tauto.
+Qed.
+
+Lemma has_map_snd : forall i fs m f, has (map (fun g => (i, g)) fs) m f = N.eqb m i && fmem_ci f fs.
+Proof.
+  intros i fs m f. unfold has, fmem_ci. induction fs as [|g fs IHf]; [rewrite andb_false_r; reflexivity|].
+  cbn [map existsb fst snd]. rewrite IHf.
+  rewrite (N.eqb_sym i m), (ci_sym g f). destruct (N.eqb m i), (flag_eqb_ci f g), (existsb (flag_eqb_ci f) fs); reflexivity.
+Qed.
+
+Lemma has_cross : forall fs ids m f, has (flat_map (fun x => map (fun g => (x, g)) fs) ids) m f = nmem m ids && fmem_ci f fs.
+Proof.
+  intros fs ids m f. induction ids as [|i r IH]; [reflexivity|]. cbn [flat_map]. rewrite has_app, IH, has_map_snd. cbn [nmem existsb].
+  fold (nmem m r). destruct (N.eqb m i), (nmem m r), (fmem_ci f fs); reflexivity.
+Qed.
+
+Lemma fmem_fmem_ci : forall g fs f, fmem g fs = true -> flag_eqb_ci g f = true -> fmem_ci f fs = true.
+Proof.
+  intros g fs f H Hc. unfold fmem in H. apply existsb_exists in H. destruct H as [x [Hx E]]. apply String.eqb_eq in E. subst x.
+  unfold fmem_ci. apply existsb_exists. exists g. split; [exact Hx | rewrite ci_sym; exact Hc].
+Qed.
+
+Lemma sp_set_flags_has : forall ids fs d, (forall m, In m ids -> msg_exists m d = true) ->
+  exists d', sp_set_flags ids fs d = Ok d' RUnit /\ d_tabs d' = d_tabs d /\ d_msgs d' = d_msgs d /\ d_m2m d' = d_m2m d /\
+             d_mboxes d' = d_mboxes d /\
+             (forall m f, db_has_flag d' m f = if nmem m ids then fmem_ci f fs else db_has_flag d m f) /\
+             (forall q, In q (d_flags d') -> In q (d_flags d) \/ In (fst q) ids).
+Proof.
+  intros ids fs d H. unfold sp_set_flags. destruct fs as [|f0 fs].
+  - exists (set_flags d (filter (fun p => negb (nmem (fst p) ids)) (d_flags d))). repeat split; try reflexivity.
+    + intros m f. rewrite !db_has_flag_has. cbn [d_flags set_flags]. unfold has. rewrite existsb_filter_and.
+      rewrite (existsb_and_const _ (fun p => negb (nmem (fst p) ids)) (negb (nmem m ids))).
+      * destruct (nmem m ids); cbn [negb fmem_ci existsb]; [apply andb_false_r | apply andb_true_r].
+      * intros p Hp. apply andb_true_iff in Hp. destruct Hp as [A _]. apply N.eqb_eq in A. rewrite A. reflexivity.
+    + cbn [d_flags set_flags]. intros q Hq. apply filter_In in Hq. tauto.
+  - set (fl := f0 :: fs). unfold flags_ins_cross.
+    destruct (foldM_ins_ignore_has (flags_del_notin fl ids d) (flat_map (fun m => map (fun f => (m, f)) fl) ids)
+                (d_flags (flags_del_notin fl ids d))) as [l' [H1 [H2 H3]]].
+    + intros p Hp. apply in_flat_map in Hp. destruct Hp as [m [Hm Hp]]. apply in_map_iff in Hp. destruct Hp as [g [E _]]. subst p.
+      apply (H m Hm).
+    + rewrite H1. exists (set_flags (flags_del_notin fl ids d) l'). cbn [lift]. repeat split; try reflexivity.
+      * intros m f. rewrite !db_has_flag_has. cbn [d_flags set_flags]. rewrite H2, has_cross.
+        unfold flags_del_notin. cbn [d_flags set_flags]. unfold has at 1. rewrite existsb_filter_and.
+        destruct (nmem m ids) eqn:Em; cbn [andb].
+        -- destruct (fmem_ci f fl) eqn:Ef; [apply orb_true_r|]. rewrite orb_false_r.
+           destruct (existsb _ (d_flags d)) eqn:E; [|reflexivity]. exfalso.
+           apply existsb_exists in E. destruct E as [p [Hp E]]. apply andb_true_iff in E. destruct E as [E1 E2].
+           apply andb_true_iff in E1. destruct E1 as [A B]. apply N.eqb_eq in A. rewrite A, Em in E2. cbn [andb] in E2.
+           apply negb_true_iff in E2. apply negb_false_iff in E2. rewrite (fmem_fmem_ci _ _ _ E2 B) in Ef. discriminate.
+        -- rewrite orb_false_r.
+           rewrite (existsb_and_const (fun p => N.eqb (fst p) m && flag_eqb_ci (snd p) f)
+                      (fun p => negb (nmem (fst p) ids && negb (fmem (snd p) fl))) true).
+           ++ unfold has. apply andb_true_r.
+           ++ intros p Hp. apply andb_true_iff in Hp. destruct Hp as [A _]. apply N.eqb_eq in A. rewrite A, Em. reflexivity.
+      * cbn [d_flags set_flags]. intros q Hq. destruct (H3 q Hq) as [A|A].
+        -- left. unfold flags_del_notin in A. cbn [d_flags set_flags] in A. apply filter_In in A. tauto.
+        -- right. apply in_flat_map in A. destruct A as [m [Hm A]]. apply in_map_iff in A. destruct A as [g [E _]]. subst q. exact Hm.
+Qed.
+
+(* ---- the reference flag operations as predicate transformers ---- *)
+Lemma has_ci_trans : forall l m f f', has l m f = true -> flag_eqb_ci f f' = true -> has l m f' = true.
+Proof.
+  intros l m f f' H Hc. unfold has in *. apply existsb_exists in H. destruct H as [p [Hp E]]. apply andb_true_iff in E.
+  destruct E as [A B]. apply existsb_exists. exists p. split; [exact Hp|]. rewrite A. cbn [andb].
+  rewrite <- (ci_trans (snd p) f f' B). exact Hc.
+Qed.
+
+Lemma rf_add_flag_has : forall ts f fl m' f',
+  has (rf_add_flag ts f fl) m' f' = has fl m' f' || (nmem m' ts && flag_eqb_ci f f').
+Proof.
+  intros ts f. unfold rf_add_flag. induction ts as [|m r IH]; intros fl m' f'; cbn [fold_left nmem existsb].
+  - rewrite orb_false_r. reflexivity.
+  - fold (nmem m' r). rewrite IH. fold (has fl m f).
+    destruct (has fl m f) eqn:E.
+    + destruct (N.eqb m' m) eqn:Em; cbn [orb]; [|reflexivity]. apply N.eqb_eq in Em. subst m'.
+      destruct (flag_eqb_ci f f') eqn:Ec; [|rewrite !andb_false_r; reflexivity].
+      rewrite (has_ci_trans fl m f f' E Ec). reflexivity.
+    + rewrite has_app, has_single. rewrite (N.eqb_sym m m').
+      destruct (has fl m' f'), (N.eqb m' m), (nmem m' r), (flag_eqb_ci f f'); reflexivity.
+Qed.
+
+Lemma fold_add_flags_has : forall fs ts fl m' f',
+  has (fold_left (fun acc f => rf_add_flag ts f acc) fs fl) m' f' = has fl m' f' || (nmem m' ts && fmem_ci f' fs).
+Proof.
+  induction fs as [|f fs IH]; intros ts fl m' f'; cbn [fold_left fmem_ci existsb].
+  - rewrite andb_false_r, orb_false_r. reflexivity.
+  - rewrite IH, rf_add_flag_has. fold (fmem_ci f' fs). rewrite (ci_sym f f').
+    destruct (has fl m' f'), (nmem m' ts), (flag_eqb_ci f' f), (fmem_ci f' fs); reflexivity.
+Qed.
+
+Lemma fold_remove_flags_has : forall fs ts fl m' f',
+  has (fold_left (fun acc f => rf_remove_flag ts f acc) fs fl) m' f' = has fl m' f' && negb (nmem m' ts && fmem_ci f' fs).
+Proof.
+  induction fs as [|f fs IH]; intros ts fl m' f'; cbn [fold_left fmem_ci existsb].
+  - rewrite andb_false_r. cbn. rewrite andb_true_r. reflexivity.
+  - rewrite IH. unfold rf_remove_flag. rewrite has_filter_remove. fold (fmem_ci f' fs).
+    destruct (has fl m' f'), (nmem m' ts), (flag_eqb_ci f' f), (fmem_ci f' fs); reflexivity.
+Qed.
+
+Lemma rf_set_flags_has : forall ts fs fl m' f',
+  has (rf_set_flags ts fs fl) m' f' = if nmem m' ts then fmem_ci f' fs else has fl m' f'.
+Proof.
+  intros ts fs fl m' f'. unfold rf_set_flags. rewrite fold_add_flags_has.
+  unfold has at 1. rewrite existsb_filter_and.
+  rewrite (existsb_and_const (fun p => N.eqb (fst p) m' && flag_eqb_ci (snd p) f') (fun p => negb (nmem (fst p) ts)) (negb (nmem m' ts))).
+  - fold (has fl m' f'). destruct (nmem m' ts), (has fl m' f'), (fmem_ci f' fs); reflexivity.
+  - intros p Hp. apply andb_true_iff in Hp. destruct Hp as [A _]. apply N.eqb_eq in A. rewrite A. reflexivity.
+Qed.
+
+(* flags_of and the predicate *)
+Lemma fmem_ci_flags_of : forall f m l, fmem_ci f (flags_of m l) = has l m f.
+Proof.
+  intros f m l. unfold fmem_ci, flags_of, has. induction l as [|p r IH]; [reflexivity|]. cbn [filter existsb].
+  destruct (N.eqb (fst p) m); cbn [map existsb andb]; [rewrite IH, (ci_sym f (snd p)); reflexivity | exact IH].
+Qed.
+
+Lemma msg_exists_In : forall m d, msg_exists m d = true <-> In m (map mg_id (d_msgs d)).
+Proof.
+  intros m d. unfold msg_exists. rewrite existsb_exists, in_map_iff. split.
+  - intros [g [Hg E]]. apply N.eqb_eq in E. exists g. tauto.
+  - intros [g [E Hg]]. exists g. split; [exact Hg | apply N.eqb_eq; exact E].
+Qed.
+
+(* ------------------------------------------------------------------ invariant: frame lemmas *)
+Lemma held_frame : forall d d' b m, d_tabs d' = d_tabs d -> held d' b m = held d b m.
+Proof. intros d d' b m H. unfold held. rewrite H. reflexivity. Qed.
+
+Lemma msg_exists_frame : forall d d' m, d_msgs d' = d_msgs d -> msg_exists m d' = msg_exists m d.
+Proof. intros d d' m H. unfold msg_exists. rewrite H. reflexivity. Qed.
+
+Lemma mbox_exists_frame : forall d d' b, d_mboxes d' = d_mboxes d -> mbox_exists b d' = mbox_exists b d.
+Proof. intros d d' b H. unfold mbox_exists, find_mbox. rewrite H. reflexivity. Qed.
+
+Lemma inv_frame_flags : forall d d', inv d ->
+  d_tabs d' = d_tabs d -> d_msgs d' = d_msgs d -> d_m2m d' = d_m2m d -> d_mboxes d' = d_mboxes d ->
+  (forall q, In q (d_flags d') -> msg_exists (fst q) d = true) -> inv d'.
+Proof.
+  intros d d' I Ht Hm H2 Hb Hf. constructor.
+  - intros t Hin. rewrite Ht in Hin. rewrite (mbox_exists_frame d d' _ Hb). apply (i_boxes d I t Hin).
+  - rewrite Ht. apply (i_tabs d I).
+  - intros t Hin. rewrite Ht in Hin. apply (rows_ok_frame d d' t Hm). apply (i_rows d I t Hin).
+  - rewrite Hm. apply (i_msgs d I).
+  - rewrite Hm. apply (i_msgs_nodup d I).
+  - intros m b. rewrite H2, (held_frame d d' b m Ht). apply (i_m2m d I).
+  - intros q Hq. rewrite (msg_exists_frame d d' _ Hm). apply Hf. exact Hq.
+Qed.
+
+Definition do_setdel (b : N) (v : bool) (ids : list N) (t : mtab) (d : db) : db :=
+  set_tabs d (put_tab (tab_setdel v ids t) (d_tabs d)).
+
+Lemma tab_setdel_nil : forall v t, tab_setdel v [] t = t.
+Proof. intros v [b s rows]. unfold tab_setdel. cbn. f_equal. apply map_ext_id. reflexivity. Qed.
+
+Lemma existsb_msg_setdel : forall v ids rows m,
+  existsb (fun x => N.eqb (r_msg x) m)
+    (map (fun x => if nmem (r_msg x) ids then mkRow (r_uid x) (r_msg x) (r_remote x) v (r_recent x) else x) rows)
+  = existsb (fun x => N.eqb (r_msg x) m) rows.
+Proof.
+  intros v ids rows m. induction rows as [|x r IH]; [reflexivity|]. cbn [map existsb]. rewrite IH.
+  destruct (nmem (r_msg x) ids); reflexivity.
+Qed.
+
+Lemma inv_do_setdel : forall b v ids t d, inv d -> find_tab b (d_tabs d) = Some t -> inv (do_setdel b v ids t d).
+Proof.
+  intros b v ids t d I Ht. pose proof (find_tab_box _ _ _ Ht) as Hb.
+  assert (Hb' : t_box (tab_setdel v ids t) = b) by (unfold tab_setdel; cbn; exact Hb).
+  constructor.
+  - intros x Hx. cbn [do_setdel d_tabs set_tabs] in Hx. unfold mbox_exists, find_mbox. cbn [do_setdel d_mboxes set_tabs].
+    apply In_put_tab in Hx. destruct Hx as [E|[Hx _]].
+    + subst x. rewrite Hb', <- Hb. apply (i_boxes d I t (find_tab_In _ _ _ Ht)).
+    + apply (i_boxes d I x Hx).
+  - cbn [do_setdel d_tabs set_tabs]. rewrite put_tab_boxes. apply (i_tabs d I).
+  - intros x Hx. cbn [do_setdel d_tabs set_tabs] in Hx. apply rows_ok_frame with (d := d); [reflexivity|].
+    apply In_put_tab in Hx. destruct Hx as [E|[Hx _]]; [|apply (i_rows d I x Hx)].
+    subst x. destruct (i_rows d I t (find_tab_In _ _ _ Ht)) as [H1 H2]. split.
+    + intros y Hy. unfold tab_setdel in Hy. cbn [t_rows] in Hy. apply in_map_iff in Hy. destruct Hy as [z [E Hz]].
+      destruct (H1 z Hz) as [A B]. destruct (nmem (r_msg z) ids); subst y; cbn; tauto.
+    + unfold tab_setdel. cbn [t_rows]. rewrite map_map.
+      rewrite (map_ext _ r_msg); [exact H2|]. intros z. destruct (nmem (r_msg z) ids); reflexivity.
+  - apply (i_msgs d I).
+  - apply (i_msgs_nodup d I).
+  - intros m b'. unfold do_setdel. cbn [d_m2m set_tabs]. rewrite (i_m2m d I).
+    rewrite (held_put d b b' (tab_setdel v ids t) m Hb' (ex_intro _ t Ht)).
+    destruct (N.eqb b' b) eqn:E; [|reflexivity]. apply N.eqb_eq in E. subst b'.
+    unfold tab_setdel. cbn [t_rows]. rewrite existsb_msg_setdel. unfold held. rewrite Ht. reflexivity.
+  - apply (i_flags d I).
+Qed.
+
+Section Steps3.
+  Variable F : list stmt_fact.
+  Hypothesis HF : facts_ok F = true.
+  Local Notation ci := true.
+
+  Lemma ex_setdel_eq : forall b ids v t d, inv d -> find_tab b (d_tabs d) = Some t ->
+    ex F ci (OSetDeleted b ids v) d = Ok (do_setdel b v ids t d) RUnit.
+  Proof.
+    intros b ids v t d I Ht. rewrite (ex_set_deleted F HF). unfold sp_set_deleted, tab_set_deleted. destruct ids as [|i ids].
+    - unfold do_setdel. rewrite tab_setdel_nil, (put_tab_same _ _ _ (i_tabs d I) Ht), db_eta_tabs. reflexivity.
+    - unfold upd_tab. rewrite Ht. reflexivity.
+  Qed.
+
+  (* STORE +FLAGS: the loop over the flags *)
+  Definition cur_ids (cur : list (N * N * list flag)) : list N := map (fun x => fst (fst x)) cur.
+
+  Lemma add_each_has : forall fs cur d,
+    (forall x, In x cur -> msg_exists (fst (fst x)) d = true) ->
+    (forall x f, In x cur -> fmem_ci f (snd x) = true -> db_has_flag d (fst (fst x)) f = true) ->
+    exists d', add_each F ci cur fs d = Ok d' RUnit /\ d_tabs d' = d_tabs d /\ d_msgs d' = d_msgs d /\ d_m2m d' = d_m2m d /\
+               d_mboxes d' = d_mboxes d /\
+               (forall m f, db_has_flag d' m f = db_has_flag d m f || (nmem m (cur_ids cur) && fmem_ci f fs)) /\
+               (forall q, In q (d_flags d') -> In q (d_flags d) \/ In (fst q) (cur_ids cur)).
+  Proof.
+    induction fs as [|f0 fs IH]; intros cur d H1 H2.
+    - exists d. cbn [add_each]. repeat split; try reflexivity.
+      + intros m f. cbn [fmem_ci existsb]. rewrite andb_false_r, orb_false_r. reflexivity.
+      + intros q Hq. left. exact Hq.
+    - cbn [add_each]. set (toflag := map (fun x => fst (fst x)) (filter (fun x => negb (fmem_ci f0 (snd x))) cur)).
+      assert (Hsub : forall m, In m toflag -> In m (cur_ids cur)).
+      { intros m Hm. unfold toflag in Hm. apply in_map_iff in Hm. destruct Hm as [x [E Hx]]. apply filter_In in Hx.
+        unfold cur_ids. apply in_map_iff. exists x. tauto. }
+      assert (Hex : forall m, In m toflag -> msg_exists m d = true).
+      { intros m Hm. apply Hsub in Hm. unfold cur_ids in Hm. apply in_map_iff in Hm. destruct Hm as [x [E Hx]]. subst m. apply H1. exact Hx. }
+      rewrite (ex_add_flag F HF).
+      destruct (sp_add_flag_has toflag f0 d Hex) as [d1 [E1 [T1 [M1 [P1 [B1 [F1 S1]]]]]]]. rewrite E1. cbn [rbind].
+      destruct (IH cur d1) as [d' [E' [T' [M' [P' [B' [F' S']]]]]]].
+      + intros x Hx. rewrite (msg_exists_frame d d1 _ M1). apply H1. exact Hx.
+      + intros x f Hx Hf. rewrite F1. rewrite (H2 x f Hx Hf). reflexivity.
+      + exists d'. rewrite E'. repeat split; try congruence.
+        * intros m f. rewrite F', F1. cbn [fmem_ci existsb]. fold (fmem_ci f fs).
+          destruct (nmem m (cur_ids cur)) eqn:Ec; cbn [andb].
+          -- (* m is one of the messages: either it is flagged now, or it already had the flag *)
+             destruct (flag_eqb_ci f f0) eqn:Ef; cbn [orb].
+             ++ rewrite (ci_sym f0 f), Ef. rewrite andb_true_r.
+                destruct (nmem m toflag) eqn:Et; [rewrite orb_true_r; reflexivity|].
+                (* not in toflag: every entry of m has f0 *)
+                apply nmem_In in Ec. unfold cur_ids in Ec. apply in_map_iff in Ec. destruct Ec as [x [Ex Hx]].
+                assert (Hhas : fmem_ci f0 (snd x) = true).
+                { destruct (fmem_ci f0 (snd x)) eqn:Eh; [reflexivity|]. exfalso. apply nmem_false in Et. apply Et.
+                  unfold toflag. apply in_map_iff. exists x. split; [exact Ex|]. apply filter_In. rewrite Eh. tauto. }
+                pose proof (H2 x f0 Hx Hhas) as Hd. rewrite Ex in Hd. rewrite db_has_flag_has in Hd.
+                rewrite db_has_flag_has. rewrite (has_ci_trans _ m f0 f Hd); [reflexivity|]. rewrite ci_sym. exact Ef.
+             ++ rewrite (ci_sym f0 f), Ef. rewrite andb_false_r, orb_false_r. reflexivity.
+          -- assert (Et : nmem m toflag = false).
+             { apply nmem_false. intros Hm. apply Hsub in Hm. apply nmem_In in Hm. congruence. }
+             rewrite Et. cbn [andb]. rewrite !orb_false_r. reflexivity.
+        * intros q Hq. destruct (S' q Hq) as [A|A]; [|right; exact A]. destruct (S1 q A) as [A1|A1]; [left; exact A1 | right; apply Hsub; exact A1].
+  Qed.
+
+  (* STORE -FLAGS *)
+  Lemma rem_each_has : forall fs cur d,
+    (forall x f, In x cur -> fmem_ci f (snd x) = false -> db_has_flag d (fst (fst x)) f = false) ->
+    exists d', rem_each F ci cur fs d = Ok d' RUnit /\ d_tabs d' = d_tabs d /\ d_msgs d' = d_msgs d /\ d_m2m d' = d_m2m d /\
+               d_mboxes d' = d_mboxes d /\
+               (forall m f, db_has_flag d' m f = db_has_flag d m f && negb (nmem m (cur_ids cur) && fmem_ci f fs)) /\
+               (forall q, In q (d_flags d') -> In q (d_flags d)).
+  Proof.
+    induction fs as [|f0 fs IH]; intros cur d H2.
+    - exists d. cbn [rem_each]. repeat split; try reflexivity.
+      + intros m f. cbn [fmem_ci existsb]. rewrite andb_false_r. cbn. rewrite andb_true_r. reflexivity.
+      + intros q Hq. exact Hq.
+    - cbn [rem_each]. set (toflag := map (fun x => fst (fst x)) (filter (fun x => fmem_ci f0 (snd x)) cur)).
+      assert (Hsub : forall m, In m toflag -> In m (cur_ids cur)).
+      { intros m Hm. unfold toflag in Hm. apply in_map_iff in Hm. destruct Hm as [x [E Hx]]. apply filter_In in Hx.
+        unfold cur_ids. apply in_map_iff. exists x. tauto. }
+      rewrite (ex_remove_flag F HF).
+      destruct (sp_remove_flag_has toflag f0 d) as [d1 [E1 [T1 [M1 [P1 [B1 [F1 S1]]]]]]]. rewrite E1. cbn [rbind].
+      destruct (IH cur d1) as [d' [E' [T' [M' [P' [B' [F' S']]]]]]].
+      + intros x f Hx Hf. rewrite F1. rewrite (H2 x f Hx Hf). reflexivity.
+      + exists d'. rewrite E'. repeat split; try congruence.
+        * intros m f. rewrite F', F1. cbn [fmem_ci existsb]. fold (fmem_ci f fs).
+          destruct (nmem m (cur_ids cur)) eqn:Ec; cbn [andb].
+          -- destruct (flag_eqb_ci f f0) eqn:Ef; cbn [orb].
+             ++ destruct (nmem m toflag) eqn:Et; cbn [andb negb]; [rewrite !andb_false_r; reflexivity|].
+                (* m has no entry with f0: it has no f either *)
+                apply nmem_In in Ec. unfold cur_ids in Ec. apply in_map_iff in Ec. destruct Ec as [x [Ex Hx]].
+                assert (Hno : fmem_ci f0 (snd x) = false).
+                { destruct (fmem_ci f0 (snd x)) eqn:Eh; [|reflexivity]. exfalso. apply nmem_false in Et. apply Et.
+                  unfold toflag. apply in_map_iff. exists x. split; [exact Ex|]. apply filter_In. tauto. }
+                pose proof (H2 x f0 Hx Hno) as Hd. rewrite Ex in Hd.
+                assert (Hf : db_has_flag d m f = false).
+                { destruct (db_has_flag d m f) eqn:Eh; [|reflexivity]. rewrite db_has_flag_has in *.
+                  rewrite (has_ci_trans _ m f f0 Eh Ef) in Hd. discriminate. }
+                rewrite Hf. reflexivity.
+             ++ cbn [negb]. rewrite andb_false_r. cbn [negb]. rewrite andb_true_r. reflexivity.
+          -- assert (Et : nmem m toflag = false).
+             { apply nmem_false. intros Hm. apply Hsub in Hm. apply nmem_In in Hm. congruence. }
+             rewrite Et. cbn [andb negb]. rewrite !andb_true_r. reflexivity.
+        * intros q Hq. apply S1. apply S'. exact Hq.
+  Qed.
+End Steps3.
+
+(* ------------------------------------------------------------------ the simulation relation *)
+Definition rel (d : db) (r : ref) : Prop := inv d /\ abs_eq d r.
+
+Lemma abs_find : forall d r b, abs_eq d r -> find_rbox b r = option_map tab_abs (find_tab b (d_tabs d)).
+Proof. intros d r b [A1 _]. unfold find_rbox. rewrite <- A1. apply find_rbox_abs. Qed.
+
+Lemma nmem_map_msgs : forall m d, nmem m (map mg_id (d_msgs d)) = msg_exists m d.
+Proof.
+  intros m d. unfold nmem, msg_exists. induction (d_msgs d) as [|g l IH]; [reflexivity|]. cbn [map existsb].
+  rewrite IH, (N.eqb_sym m (mg_id g)). reflexivity.
+Qed.
+
+Lemma targets_ok_db : forall d r ts, abs_eq d r -> targets_ok r ts = true ->
+  NoDup ts /\ forall m, In m ts -> msg_exists m d = true.
+Proof.
+  intros d r ts [_ [A2 _]] H. unfold targets_ok in H. apply andb_true_iff in H. destruct H as [H1 H2]. split.
+  - apply nodupb_NoDup. exact H1.
+  - intros m Hm. rewrite forallb_forall in H2. specialize (H2 m Hm). rewrite <- A2, nmem_map_msgs in H2. exact H2.
+Qed.
+
+Lemma abs_put : forall d r d' t', abs_eq d r ->
+  d_tabs d' = put_tab t' (d_tabs d) -> d_msgs d' = d_msgs d -> (forall m f, db_has_flag d' m f = db_has_flag d m f) ->
+  abs_eq d' (set_boxes r (put_rbox (tab_abs t') (rf_boxes r))).
+Proof.
+  intros d r d' t' [A1 [A2 A3]] Ht Hm Hf. split; [|split].
+  - cbn [rf_boxes set_boxes]. rewrite Ht, <- A1. symmetry. apply put_rbox_abs.
+  - cbn [rf_msgs set_boxes]. rewrite Hm. exact A2.
+  - intros m f. rewrite Hf. cbn [set_boxes]. unfold ref_has_flag. cbn [rf_flags]. apply A3.
+Qed.
+
+Lemma do_remove_nil : forall b t d, inv d -> find_tab b (d_tabs d) = Some t -> do_remove b [] t d = d.
+Proof.
+  intros b t d I Ht. unfold do_remove. rewrite tab_del_nil, (put_tab_same _ _ _ (i_tabs d I) Ht), db_eta_tabs, m2m_del_nil. reflexivity.
+Qed.
+
+Lemma filter_held : forall d b t ts l, find_tab b (d_tabs d) = Some t ->
+  (forall m, In m l <-> (In m ts /\ existsb (fun x => N.eqb (r_msg x) m) (t_rows t) = true)) ->
+  filter (fun m => nmem m l) ts = filter (held d b) ts.
+Proof.
+  intros d b t ts l Ht Hl. apply filter_ext_in'. intros m Hm. unfold held. rewrite Ht.
+  destruct (existsb (fun x => N.eqb (r_msg x) m) (t_rows t)) eqn:E.
+  - apply nmem_In. apply Hl. tauto.
+  - apply nmem_false. intros Hin. apply Hl in Hin. destruct Hin as [_ Hin]. congruence.
+Qed.
+
+Lemma rows_filter_ext : forall (p q : rrow -> bool) x, (forall e, In e (rb_rows x) -> p e = q e) ->
+  mkRB (rb_id x) (rb_last x) (filter p (rb_rows x)) = mkRB (rb_id x) (rb_last x) (filter q (rb_rows x)).
+Proof. intros p q x H. f_equal. apply filter_ext_in'. exact H. Qed.
+
+Lemma In_row_abs_held : forall t e, In e (rb_rows (tab_abs t)) -> existsb (fun x => N.eqb (r_msg x) (rr_msg e)) (t_rows t) = true.
+Proof.
+  intros t e H. unfold tab_abs in H. cbn [rb_rows] in H. apply in_map_iff in H. destruct H as [x [E Hx]]. subst e.
+  apply existsb_exists. exists x. split; [exact Hx | apply N.eqb_refl].
+Qed.
+
+(* removing the held part of the targets = removing the targets *)
+Lemma rb_remove_held : forall d b t ts, find_tab b (d_tabs d) = Some t ->
+  rb_remove (filter (held d b) ts) (tab_abs t) = rb_remove ts (tab_abs t).
+Proof.
+  intros d b t ts Ht. unfold rb_remove. apply rows_filter_ext. intros e He. f_equal.
+  pose proof (In_row_abs_held t e He) as Hh.
+  destruct (nmem (rr_msg e) ts) eqn:E.
+  - apply nmem_In. apply filter_In. split; [apply nmem_In; exact E|]. unfold held. rewrite Ht. exact Hh.
+  - apply nmem_false. intros Hin. apply filter_In in Hin. destruct Hin as [Hin _]. apply nmem_In in Hin. congruence.
+Qed.
+
+Section Sim.
+  Variable F : list stmt_fact.
+  Hypothesis HF : facts_ok F = true.
+  Local Notation ci := true.
+  Local Notation istep := (impl_step F ci).
+
+  Lemma act_remove_eq : forall b ts t d, inv d -> find_tab b (d_tabs d) = Some t ->
+    act_remove F ci b ts d = Ok (do_remove b (filter (held d b) ts) t d) RUnit.
+  Proof.
+    intros b ts t d I Ht. unfold act_remove.
+    pose proof (ex_filter_contains F HF b ts d) as H. rewrite Ht in H. destruct H as [l [E Hl]]. rewrite E. cbn [rbind nums_of].
+    rewrite (filter_held d b t ts l Ht Hl).
+    destruct (filter (held d b) ts) as [|x xs] eqn:Ef.
+    - rewrite (do_remove_nil b t d I Ht). reflexivity.
+    - apply (act_remove_unchecked_eq F HF b (x :: xs) t d I Ht).
+  Qed.
+
+  Lemma box_known_find : forall b d, box_known b d = match find_tab b (d_tabs d) with Some _ => true | None => false end.
+  Proof. reflexivity. Qed.
+
+  Lemma sim_expunge : forall b ts d r, rel d r -> cmd_wf (CExpunge b ts) r = true ->
+    rel (fst (istep (CExpunge b ts) d)) (fst (ref_step (CExpunge b ts) r)) /\
+    snd (istep (CExpunge b ts) d) = snd (ref_step (CExpunge b ts) r).
+  Proof.
+    intros b ts d r [I A] W. unfold impl_step. cbn [cmd_tx ref_step]. rewrite (abs_find d r b A), box_known_find.
+    destruct (find_tab b (d_tabs d)) as [t|] eqn:Ht; cbn [option_map]; [|split; [split; assumption | reflexivity]].
+    rewrite (act_remove_eq b ts t d I Ht). cbn [fst snd]. split; [|reflexivity]. split.
+    - apply inv_do_remove; assumption.
+    - cbn [cmd_wf] in W. apply andb_true_iff in W. destruct W as [W1 W2].
+      replace (rb_expunge ts (tab_abs t)) with (tab_abs (tab_del (filter (held d b) ts) t)).
+      + apply (abs_put d r _ (tab_del (filter (held d b) ts) t) A); reflexivity.
+      + rewrite tab_del_abs, (rb_remove_held d b t ts Ht). unfold rb_remove, rb_expunge. apply rows_filter_ext.
+        intros e He. f_equal. unfold expunge_view_ok in W2. rewrite <- (proj1 A), find_rbox_abs, Ht in W2. cbn [option_map] in W2.
+        rewrite forallb_forall in W2. specialize (W2 e He).
+        destruct (nmem (rr_msg e) ts); [|reflexivity]. cbn [negb orb] in W2. rewrite W2. reflexivity.
+  Qed.
+End Sim.
+
+Section Sim2.
+  Variable F : list stmt_fact.
+  Hypothesis HF : facts_ok F = true.
+  Local Notation ci := true.
+  Local Notation istep := (impl_step F ci).
+
+  Lemma ex_add_messages_eq : forall b ids t d, inv d -> find_tab b (d_tabs d) = Some t -> addable d b ids ->
+    exists r, ex F ci (OAddMessages b (pairs ids)) d = Ok (do_add b ids t d) r.
+  Proof.
+    intros b ids t d I Ht Hadd. destruct (st_add_eq F HF b ids t d I Ht Hadd) as [r E]. unfold st_add in E.
+    rewrite (ex_common F HF (OGetCountAndUID b) d eq_refl) in E. cbn [exec_common] in E.
+    unfold op_get_count_and_uid, tab_or_fail in E. rewrite Ht in E. cbn [rbind] in E. exists r. exact E.
+  Qed.
+
+  Lemma find_do_remove_same : forall b ids t d, find_tab b (d_tabs d) = Some t ->
+    find_tab b (d_tabs (do_remove b ids t d)) = Some (tab_del ids t).
+  Proof.
+    intros b ids t d Ht. cbn [do_remove m2m_del_rows d_tabs set_m2m set_tabs]. apply (find_put_same b (d_tabs d) t _ Ht).
+    unfold tab_del. cbn. apply (find_tab_box _ _ _ Ht).
+  Qed.
+
+  Lemma find_do_remove_other : forall b b' ids t d, find_tab b (d_tabs d) = Some t -> b' <> b ->
+    find_tab b' (d_tabs (do_remove b ids t d)) = find_tab b' (d_tabs d).
+  Proof.
+    intros b b' ids t d Ht Hne. cbn [do_remove m2m_del_rows d_tabs set_m2m set_tabs]. apply (find_put_other b b').
+    - unfold tab_del. cbn. apply (find_tab_box _ _ _ Ht).
+    - exact Hne.
+  Qed.
+
+  Lemma NoDup_filter : forall {A} (p : A -> bool) l, NoDup l -> NoDup (filter p l).
+  Proof.
+    intros A p l H. induction H as [|x l Hx Hl IH]; [constructor|]. cbn [filter]. destruct (p x); [|exact IH].
+    constructor; [|exact IH]. intros Hin. apply filter_In in Hin. tauto.
+  Qed.
+
+  Lemma act_add_eq : forall b ts t d, inv d -> find_tab b (d_tabs d) = Some t ->
+    NoDup ts -> (forall m, In m ts -> msg_exists m d = true) ->
+    exists r, act_add F ci b ts d
+              = Ok (do_add b ts (tab_del (filter (held d b) ts) t) (do_remove b (filter (held d b) ts) t d)) r.
+  Proof.
+    intros b ts t d I Ht Hnd Hex. unfold act_add.
+    pose proof (ex_filter_contains F HF b ts d) as H. rewrite Ht in H. destruct H as [l [E Hl]]. rewrite E. cbn [rbind nums_of].
+    rewrite (filter_held d b t ts l Ht Hl). set (rem := filter (held d b) ts).
+    assert (E2 : match rem with [] => Ok d RUnit | _ :: _ => act_remove_unchecked F ci b rem d end = Ok (do_remove b rem t d) RUnit).
+    { destruct rem as [|x xs] eqn:Er.
+      - rewrite (do_remove_nil b t d I Ht). reflexivity.
+      - apply (act_remove_unchecked_eq F HF b (x :: xs) t d I Ht). }
+    rewrite E2. cbn [rbind].
+    apply (st_add_eq F HF b ts (tab_del rem t) (do_remove b rem t d)).
+    - apply inv_do_remove; assumption.
+    - apply find_do_remove_same. exact Ht.
+    - split; [exact Hnd|]. intros m Hm. split.
+      + rewrite (held_do_remove b rem t d b m Ht), N.eqb_refl.
+        destruct (held d b m) eqn:Eh; [|reflexivity]. cbn [andb].
+        assert (In m rem) by (apply filter_In; split; assumption). apply nmem_In in H. rewrite H. reflexivity.
+      + apply Hex. exact Hm.
+  Qed.
+
+  Lemma do_add_tabs : forall b ids t d, d_tabs (do_add b ids t d) = put_tab (tab_append ids t) (d_tabs d).
+  Proof. reflexivity. Qed.
+  Lemma do_remove_tabs : forall b ids t d, d_tabs (do_remove b ids t d) = put_tab (tab_del ids t) (d_tabs d).
+  Proof. reflexivity. Qed.
+
+  Lemma box_known_abs : forall d r b, abs_eq d r ->
+    box_known b d = match find_rbox b r with Some _ => true | None => false end.
+  Proof. intros d r b A. rewrite (abs_find d r b A), box_known_find. destruct (find_tab b (d_tabs d)); reflexivity. Qed.
+
+  Lemma sim_copy : forall s b ts d r, rel d r -> cmd_wf (CCopy s b ts) r = true ->
+    rel (fst (istep (CCopy s b ts) d)) (fst (ref_step (CCopy s b ts) r)) /\
+    snd (istep (CCopy s b ts) d) = snd (ref_step (CCopy s b ts) r).
+  Proof.
+    intros s b ts d r [I A] W. unfold impl_step. cbn [cmd_tx ref_step].
+    rewrite (abs_find d r s A), (abs_find d r b A), !box_known_find.
+    destruct (find_tab s (d_tabs d)) as [ts0|] eqn:Hs; cbn [option_map andb]; [|split; [split; assumption | reflexivity]].
+    destruct (find_tab b (d_tabs d)) as [t|] eqn:Ht; cbn [option_map]; [|split; [split; assumption | reflexivity]].
+    cbn [cmd_wf] in W. destruct (targets_ok_db d r ts A W) as [Hnd Hex].
+    destruct (act_add_eq b ts t d I Ht Hnd Hex) as [res E]. rewrite E. cbn [fst snd]. split; [|reflexivity].
+    set (rem := filter (held d b) ts) in *. split.
+    - apply inv_do_add.
+      + apply inv_do_remove; assumption.
+      + apply find_do_remove_same. exact Ht.
+      + split; [exact Hnd|]. intros m Hm. split; [|apply Hex; exact Hm].
+        rewrite (held_do_remove b rem t d b m Ht), N.eqb_refl.
+        destruct (held d b m) eqn:Eh; [|reflexivity]. cbn [andb].
+        assert (In m rem) by (apply filter_In; split; assumption). apply nmem_In in H. rewrite H. reflexivity.
+    - replace (rb_append ts (rb_remove ts (tab_abs t))) with (tab_abs (tab_append ts (tab_del rem t))).
+      + apply (abs_put d r _ (tab_append ts (tab_del rem t)) A); try reflexivity.
+        rewrite do_add_tabs, do_remove_tabs. apply put_put. rewrite tab_append_box. reflexivity.
+      + rewrite tab_append_abs, tab_del_abs. unfold rem. rewrite (rb_remove_held d b t ts Ht). reflexivity.
+  Qed.
+End Sim2.
